@@ -88,9 +88,13 @@ claim("C20",
   "ONE burst of event-loop activity per run at a synchronisation point of the callback goroutine (or inside OnData); two or more preemptions, and OnData running in parallel with itself through a second real goroutine, are outside the model; data-race freedom of Go-heap state is assumed",
   "DESIGN.md 15.3/C20")
 
+claim("C17",
+  "Real SessionManager.background (one watcher goroutine per pool), streamPool.close/getOrOpenStream, SessionManager.Close/GetStream/PutBack, Session.Close/onRemoteClose and - for the interplay with hot restart - handleHotRestart, handleSessionManagerHotRestart, SessionManager.checkHotRestart, executed symbolically with the goroutines as coroutines (run until blocked; timers fire only when nobody can proceed) over histories of 1-3 events on 1-2 pools: a session is lost while the server answers after 0-2 refused attempts; the server goes down and a session is lost (retries continue, calls fail); the server comes back; hot restart reaching all or some of the live sessions followed by the old server dropping the old sessions in either order; manager Close at any point (also during a rebuild against an unreachable server). Oracle: a lost session is replaced by a live one of the current epoch after exactly fails+1 attempts, GetStream fails (never hangs) while there is none and works again afterwards, other pools are untouched, pools replaced by hot restart are not rebuilt again, Close returns, closes every session and nothing is rebuilt afterwards.",
+  "ONE schedule per history: goroutines run round-robin until each blocks, a time-out or Sleep only fires when no party can proceed (at most 12 firings per scheduler run); the harness' events fall between such quiescent points, NOT in the middle of a watcher's step; newClientSession is a stub (reachability of the real server, dialling, the handshake are not part of this check); context.WithCancel is a stub with the documented contract; epochs are concrete (0 and 7); elapsed time ('after the rebuild interval') is not measured",
+  "DESIGN.md 15.3/C17")
+
 NOT_APPLICABLE = {
  "C12": "the handshake needs two blocking parties alternating over a pipe plus descriptor passing; the engine has no coroutines / blocking threads over Go-heap FIFOs, and splitting Init by hand would no longer execute the real functions; only the 'both ends map the same memory' fact is asserted inside the C14 harness over the OS model",
- "C17": "wall-clock healing behaviour of SessionManager.background against a real listener (timers, net.Dial, contexts): no input/schedule space a bounded symbolic encoding decides (DESIGN.md section 10)",
 }
 
 def main():
